@@ -145,8 +145,8 @@ def d_shape_step(st, op):
     return tuple(st)
 
 
-def d_exhaustive(P, files, syms, depth):
-    ops = d_alphabet(P, files, syms, scoped=[(0, 0), (0, 7), (5, 0)], reads=(0, 1))
+def d_exhaustive(P, files, syms, depth, scoped=(), reads=()):
+    ops = d_alphabet(P, files, syms, scoped=list(scoped), reads=reads)
 
     def rec(st, d, acc):
         if d == 0:
@@ -217,7 +217,7 @@ class C19(Check):
     rule = ("env: every sequence of depth 3 (thorough: 4) over {setenv, unsetenv, get with default, get with the defaulted default, "
             "get without default} x 2 names x values/defaults {'', 'x'}, then random sequences with names and values over arbitrary "
             "non-NUL bytes (values also empty and up to 20 000 bytes; thorough 200 000), defaults equal to / different from the "
-            "value; dl: every applicable sequence of depth 3 (thorough: 4) over {open a / b / missing, load existing / only-in-a / "
+            "value; dl: every applicable sequence of depth 3 (thorough: also depth 4 without the scoped/quiet/read operations) over {open a / b / missing, load existing / only-in-a / "
             "missing symbol, get, copy-construct, move-construct, copy-assign, move-assign (both also onto itself), swap, destroy, "
             "call, stale error} on a pool of 3 owners, then random sequences of length <= 10 (thorough <= 16) on a pool of 4 that "
             "also open the program itself, biased towards symbols outliving their library object, and structured sequences: two "
@@ -294,8 +294,11 @@ class C19(Check):
         for n in ["", "=", "VQA=1", "=VQA"]:
             yield e_case([("g", hx(n), hx("d")), ("n", hx(n)), ("d", hx(n))]), "env-odd-name"
         # ---- dl, exhaustive applicable-only
-        for seq in d_exhaustive(3, (0, 1, 5), (0, 2, 7), 3 if quick else 4):
+        for seq in d_exhaustive(3, (0, 1, 5), (0, 2, 7), 3, scoped=[(0, 7), (5, 0)], reads=(0,)):
             yield d_case(3, seq), "dl-exh"
+        if not quick:
+            for seq in d_exhaustive(3, (0, 1, 5), (0, 2, 7), 4):
+                yield d_case(3, seq), "dl-exh4"
         # ---- dl, random
         alpha = d_alphabet(4, (0, 1, 2, 5, 6), (0, 1, 2, 3, 7, 8), xs=(0, 5, 11))
         for _ in range(4000 if quick else 40000):
